@@ -27,6 +27,8 @@ func init() {
 		func(t *vcTrial) { vcRunC05(t, vc05Cfg{Network: "tcp", Handler: "block", Actors: []string{"ioerror", "close"}, Closers: 2}) },
 		func(t *vcTrial) { vcRunC05(t, vc05Cfg{Network: "unix", Handler: "drain", Actors: []string{"ioerror"}, OnConnect: true}) },
 		func(t *vcTrial) { vcRunC05(t, vc05Cfg{Network: "tcp", Handler: "none", OnConnect: true, Actors: []string{"fin"}}) },
+		func(t *vcTrial) { vcRunC05(t, vc05Cfg{Network: "tcp", Handler: "drain", Actors: []string{"close"}, Closers: 1, Flusher: true}) },
+		func(t *vcTrial) { vcRunC05(t, vc05Cfg{Network: "unix", Handler: "block", Actors: []string{"close", "input"}, Closers: 2, Flusher: true}) },
 		func(t *vcTrial) { vcRunC05(t, vc05Cfg{Network: "unix", Handler: "none", OnConnect: true, Actors: []string{"input", "fin"}}) },
 		vcRunC05DetachThenClose,
 		vcRunC05RegisterFails,
@@ -182,6 +184,7 @@ type vc05Cfg struct {
 	Mode      int
 	P, Q      int
 	ClientNP  bool // the connection under test is the dialed (client) side, without callbacks
+	Flusher   bool // a goroutine outside the handler is parked in Flush (peer not reading) when the actors start
 }
 
 func vcScenC05(t *vcTrial) {
@@ -239,6 +242,7 @@ func vcScenC05(t *vcTrial) {
 		vcRunC05Client(t, cfg)
 		return
 	}
+	cfg.Flusher = !cfg.Detach && r.chance(15)
 	vcRunC05(t, cfg)
 }
 
@@ -333,6 +337,25 @@ func vcRunC05(t *vcTrial, cfg vc05Cfg) {
 		// give the handler a chance to be running when the actors start (not required)
 		vcWaitPoint(mark, vpTaskStart, rec.ID, 200*time.Millisecond)
 	}
+	// a writer outside the handler, parked in Flush on the full socket (the raw peer never reads):
+	// whoever tears the connection down has to get past it, and it has to be woken
+	flushDone := make(chan struct{})
+	if cfg.Flusher {
+		vcSetBuf(rec.FD, 4<<10, 0)
+		go func() {
+			defer close(flushDone)
+			defer func() { recover() }() // a writer racing with the close of the buffers is D22's subject (C08)
+			if b, err := rec.Conn.Writer().Malloc(2 << 20); err == nil {
+				vfFill(b, 5, 0)
+				rec.Conn.Writer().Flush()
+			}
+		}()
+		if vcWaitPoint(mark, vpWaitFlushBeforeBlock, rec.ID, 2*time.Second) {
+			t.Stat("flusher_parked_before_actors", 1)
+		}
+	} else {
+		close(flushDone)
+	}
 	// actors behind a barrier
 	var wg sync.WaitGroup
 	barrier := make(chan struct{})
@@ -395,7 +418,34 @@ func vcRunC05(t *vcTrial, cfg vc05Cfg) {
 	}
 	spawn("release", doRelease)
 	close(barrier)
-	wg.Wait()
+	if cfg.Flusher {
+		// bounded: a Close that cannot get past the parked writer (or never wakes it) would hang here
+		actorsDone := make(chan struct{})
+		go func() { wg.Wait(); close(actorsDone) }()
+		select {
+		case <-actorsDone:
+		case <-time.After(30 * time.Second):
+			doRelease()
+			vcSetPlan(nil)
+			flusherBack := false
+			select {
+			case <-flushDone:
+				flusherBack = true
+			default:
+			}
+			stuck := vcStacksContaining("netpoll.(*connection).Close")
+			if len(stuck) > 0 && vcRunnerProgress(5, 5*time.Second) {
+				t.Violate("C05", "close_stuck", "Close() called while another goroutine was parked in Flush on a full socket has not returned after 30 s (the parked Flush has returned: %v; close callbacks run so far: %d): the teardown never completes (history %v)", flusherBack, rec.count(vcCbClose), rec.history())
+				t.P("stuck_stacks", stuck)
+			} else {
+				t.Inconclusive("actors did not return within 30s, no stuck Close on the stacks")
+			}
+			sampler.Stop()
+			return
+		}
+	} else {
+		wg.Wait()
+	}
 	doRelease()
 	vcSetPlan(nil)
 	// a connection with callbacks that the *peer* closed is torn down by netpoll itself (only a
@@ -416,7 +466,25 @@ func vcRunC05(t *vcTrial, cfg vc05Cfg) {
 		}
 	}
 	// final user Close: after it returned and the handler task has exited the connection must be torn down
-	rec.Conn.Close()
+	if cfg.Flusher {
+		fin := make(chan struct{})
+		go func() { rec.Conn.Close(); close(fin) }()
+		select {
+		case <-fin:
+		case <-time.After(30 * time.Second):
+			stuck := vcStacksContaining("netpoll.(*connection).Close")
+			if len(stuck) > 0 && vcRunnerProgress(5, 5*time.Second) {
+				t.Violate("C05", "close_stuck", "the final Close() - a writer is (or was) parked in Flush on a full socket - has not returned after 30 s (close callbacks run so far: %d, history %v)", rec.count(vcCbClose), rec.history())
+				t.P("stuck_stacks", stuck)
+			} else {
+				t.Inconclusive("final Close did not return within 30s")
+			}
+			sampler.Stop()
+			return
+		}
+	} else {
+		rec.Conn.Close()
+	}
 	closed := rec.waitClosed(10 * time.Second)
 	if !closed {
 		// stuck-state witness: no handler running, processing lock free, callbacks never ran
